@@ -91,8 +91,13 @@ def checkTemplate (g : IR) : String :=
   let look := fun (l : List (Nat × List Nat)) (n : Nat) => sortNat ((l.find? (·.1 == n)).map (·.2) |>.getD [])
   let keys := (model.map (·.1) ++ dump.map (·.1)).eraseDups
   let bad := keys.filter fun n => look model n != look dump n
-  if bad.isEmpty then s!"used_template_params=ok"
-  else "used_template_params=DIFF(" ++ ",".intercalate ((bad.take 6).map fun n => s!"{n}:{look model n}:{look dump n}") ++ ")"
+  -- side conditions of `C01_generics_closed` / `C07_instance_stable` on this graph (recursive path only)
+  let side := if g.opts.allowlistRecursively then
+      let I := (templateInstance g).1
+      s!" sidecond_used_template_params={if I.readsCovered && I.depsClosed then 1 else 0}"
+    else ""
+  if bad.isEmpty then s!"used_template_params=ok" ++ side
+  else ("used_template_params=DIFF(" ++ ",".intercalate ((bad.take 6).map fun n => s!"{n}:{look model n}:{look dump n}") ++ ")").replace " " "" ++ side
 
 def check (g : IR) (seed : Nat) : String :=
   if g.opts.callbacks != 0 then "irchk skipped=callbacks" else
@@ -111,6 +116,6 @@ def check (g : IR) (seed : Nat) : String :=
       let sd := I.nodes.filter fun n => model.getD n 0 != alt1.getD n 0 || model.getD n 0 != alt2.getD n 0
       let unc := I.uncovered
       s!"{name}={res} sched_{name}={if sd.isEmpty then "ok" else "DIFF(" ++ idList (sd.take 8) ++ ")"} uncovered_{name}={idList (unc.take 40)} closed_{name}={if I.depsClosed then 1 else 0} nodes_{name}={I.nodes.length}"
-  "irchk " ++ " ".intercalate parts ++ " " ++ (checkTemplate g).replace " " ""
+  "irchk " ++ " ".intercalate parts ++ " " ++ checkTemplate g
 
 end BindgenModel.Driver.C07
